@@ -46,6 +46,10 @@ macro_rules! explore {
 		for q in [None, Some(""), Some("q"), Some("a:b/c?d@")] {
 			ops.push(MOp::Set(SOp::Query(q.map(domains::b))));
 		}
+		if $f == Family::Iri {
+			// a character that only a query may hold (iprivate): wherever else it lands, the buffer is invalid
+			ops.push(MOp::Set(SOp::Query(Some(domains::b("\u{E000}")))));
+		}
 		for fr_ in [None, Some(""), Some("f"), Some("a:/?b@")] {
 			ops.push(MOp::Set(SOp::Fragment(fr_.map(domains::b))));
 		}
